@@ -6,6 +6,7 @@ From Coq Require Import ZArith List Bool Lia.
 Import ListNotations.
 Require Import Amoco.C14.Model Amoco.C16.Layout Amoco.C16.Proofs Amoco.C16.Fields Amoco.C16.FieldsProofs.
 Require Amoco.C16.Sleb.
+Require Amoco.C16.Uleb.
 Open Scope Z_scope.
 
 (* Natural alignment: every field of a non-packed structure sits at the least offset that is a multiple of its
@@ -76,6 +77,26 @@ Example C16_sleb128_nonvacuous :
   Sleb.sleb_enc 40 (-64) = [64] /\ Sleb.sleb_enc 40 (-65) = [191; 127] /\ Sleb.sleb_enc 40 64 = [192; 0] /\
   Sleb.sleb_dec [192; 0; 7] 0 0 0 = (64, 2%nat) /\ Sleb.sleb_enc 40 (-8192) = [128; 64].
 Proof. vm_compute. repeat split; reflexivity. Qed.
+
+(* unsigned LEB128 as the implementation writes it (write_uleb128 / read_uleb128, evaluated against the implementation on every
+   run through Uleb.check_uleb): read back exactly whatever follows, with the number of bytes written; the encoding is the
+   shortest one and never ends in a redundant zero group *)
+Theorem C16_uleb128_written_roundtrip : forall f v t, Uleb.ufits f v ->
+  Uleb.uleb_dec (Uleb.uleb_enc (S f) v ++ t) 0 0 0 = (v, length (Uleb.uleb_enc (S f) v)).
+Proof. intros f v t H. rewrite Uleb.uleb_roundtrip by (try assumption; lia). f_equal. cbn. apply Z.mul_1_r. Qed.
+Print Assumptions C16_uleb128_written_roundtrip.
+Theorem C16_uleb128_is_shortest : forall f v k, Uleb.ufits f v -> (k <= f)%nat -> Uleb.ufits k v ->
+  (length (Uleb.uleb_enc (S f) v) <= S k)%nat.
+Proof. exact Uleb.uleb_shortest. Qed.
+Print Assumptions C16_uleb128_is_shortest.
+Theorem C16_uleb128_no_redundant_group : forall f v, Uleb.ufits f v -> 0 < v ->
+  last (Uleb.uleb_enc (S f) v) 0 <> 0 /\ last (Uleb.uleb_enc (S f) v) 0 < 128.
+Proof. exact Uleb.uleb_last_group_nonzero. Qed.
+Print Assumptions C16_uleb128_no_redundant_group.
+Example C16_uleb128_nonvacuous :
+  Uleb.uleb_enc 40 0 = [0] /\ Uleb.uleb_enc 40 127 = [127] /\ Uleb.uleb_enc 40 128 = [128; 1] /\
+  Uleb.uleb_enc 40 624485 = [229; 142; 38] /\ Uleb.uleb_dec [229; 142; 38; 7] 0 0 0 = (624485, 3%nat) /\ Uleb.ufits 2 624485.
+Proof. vm_compute. repeat split; try reflexivity; discriminate. Qed.
 
 Example C16_fields_nonvacuous :
   cnt_unpack true true 2 2 (cnt_pack true true 2 2 [-2; 513] ++ [9; 9]) = ([-2; 513], 6%nat) /\
